@@ -774,7 +774,7 @@ def simplify_op(prop, op):
 
 
 def tiers(prop):
-    return {"quick": 10000, "thorough": 400000}
+    return {"quick": 16000, "thorough": 400000}
 
 
 def legs(prop, tier):
